@@ -384,17 +384,34 @@ func (rw *rewriter) post(slot reflect.Value) {
 	}
 }
 
-func (rw *rewriter) site(p token.Pos) ast.Expr {
+// site names a go statement independently of line numbers:
+// "<file>:<enclosing func>><callee>", e.g. "store.go:NewStore>maintenance".
+func (rw *rewriter) site(g *ast.GoStmt) ast.Expr {
+	p := g.Pos()
 	pos := rw.fset.Position(p)
-	return &ast.BasicLit{Kind: token.STRING, Value: strconv.Quote(fmt.Sprintf("%s:%d", filepath.Base(pos.Filename), pos.Line))}
+	encl := "?"
+	for _, d := range rw.file.Decls {
+		if fd, ok := d.(*ast.FuncDecl); ok && fd.Pos() <= p && p < fd.End() {
+			encl = fd.Name.Name
+		}
+	}
+	callee := "func"
+	switch f := g.Call.Fun.(type) {
+	case *ast.Ident:
+		callee = f.Name
+	case *ast.SelectorExpr:
+		callee = f.Sel.Name
+	}
+	return &ast.BasicLit{Kind: token.STRING, Value: strconv.Quote(fmt.Sprintf("%s:%s>%s", filepath.Base(pos.Filename), encl, callee))}
 }
 
 func (rw *rewriter) rewriteGo(g *ast.GoStmt) ast.Stmt {
 	rw.stats["go"]++
+	site := rw.site(g)
 	call := g.Call
 	if fl, ok := call.Fun.(*ast.FuncLit); ok && len(call.Args) == 0 {
 		if fl.Type.Results == nil || len(fl.Type.Results.List) == 0 {
-			return &ast.ExprStmt{X: rw.call("Go", rw.site(g.Pos()), fl)}
+			return &ast.ExprStmt{X: rw.call("Go", site, fl)}
 		}
 	}
 	var pre []ast.Stmt
@@ -414,7 +431,7 @@ func (rw *rewriter) rewriteGo(g *ast.GoStmt) ast.Stmt {
 	}
 	body := &ast.BlockStmt{List: []ast.Stmt{&ast.ExprStmt{X: call}}}
 	fl := &ast.FuncLit{Type: &ast.FuncType{Params: &ast.FieldList{}}, Body: body}
-	st := &ast.ExprStmt{X: rw.call("Go", rw.site(g.Pos()), fl)}
+	st := &ast.ExprStmt{X: rw.call("Go", site, fl)}
 	if len(pre) == 0 {
 		return st
 	}
